@@ -3,7 +3,7 @@ import os
 from .. import sym as S
 from ..values import UNDEF, EnumV, veq, merge
 from ..scenario import OrderView
-from ..histcheck import panic_obligations, reach_witness, busy_witness, sequences, run_hist
+from ..histcheck import match_unwind_for, panic_obligations, reach_witness, busy_witness, sequences, run_hist
 from ..framework import Run, load_known
 
 QTY = ('quantity', 'visible_quantity', 'hidden_quantity')
@@ -141,7 +141,7 @@ def cubes(tier):
             continue
         if s.count('S') > 1:
             continue
-        mu = 4 if s.count('M') <= 1 else 3
+        mu = match_unwind_for(s, 4)
         out.append({'seq': s, 'match_unwind': mu, 'pop_unwind': depth + 3, 'qty_mode': 'full', 'price': price,
                     'family': 'history', 'default_unwind': 8})
     return out
